@@ -65,10 +65,12 @@ struct Laws
 
 static void runSpace(const std::string &name, const vf::Args &a, vf::Report &rep)
 {
-    int pairLevel = a.thorough() ? 3 : 2, tripleLevel = a.thorough() ? 2 : 1;
+    int pairLevel = a.thorough() ? 3 : 2, tripleLevel = a.thorough() ? 3 : 1;
     // pairs
     {
         SpaceCfg c = makeSpace(name, pairLevel);
+        if (a.thorough())
+            densify(c, 600);
         Pool P(c);
         Laws L{c, [&](const std::string &k, const std::string &w, const std::string &r) { rep.fail(k, w, r); }};
         size_t n = P.st.size();
@@ -113,6 +115,8 @@ static void runSpace(const std::string &name, const vf::Args &a, vf::Report &rep
     // triples
     {
         SpaceCfg c = makeSpace(name, tripleLevel);
+        if (a.thorough())
+            densify(c, 320);
         if (c.space->isMetricSpace())
         {
             Pool P(c);
@@ -134,12 +138,17 @@ static void runSpace(const std::string &name, const vf::Args &a, vf::Report &rep
                                      "isMetricSpace() is true but d(a,c)=" + vf::jnum(ac) + " > d(a,b)+d(b,c)=" + vf::jnum(ab) + "+" + vf::jnum(bc), L.rj(c.lattice[i], c.lattice[j], &c.lattice[k]));
                         if (i != j && j != k && i != k)
                         {
-                            vf::Hash h;
-                            h.adds(name);
-                            h.add(i);
-                            h.add(j);
-                            h.add(k);
-                            rep.nontrivial.insert(h.h);
+                            if (n > 60)
+                                rep.nontrivialCounted++;  // (i,j,k) are distinct by construction
+                            else
+                            {
+                                vf::Hash h;
+                                h.adds(name);
+                                h.add(i);
+                                h.add(j);
+                                h.add(k);
+                                rep.nontrivial.insert(h.h);
+                            }
                         }
                     }
             rep.bounds["triple_lattice_" + name] = std::to_string(n);
